@@ -91,11 +91,6 @@ func (c *c11Ctx) checkPartial(v *vfile, f *fit.File, k int, where string, rep fu
 		r.hist("partial_prefix_outside_reference_domain")
 		return
 	}
-	if v.quirky {
-		// same rule as for C02/C13/C16 (cdec.go): executions on the recorded time-rule defect paths are judged by C12
-		r.hist("partial_time_rule_defect_path_left_to_C12")
-		return
-	}
 	if diff := compareFileWithSpec(f, sr); diff != "" {
 		r.specFail("partial_files", fmt.Sprintf("the File returned with the error does not hold exactly the messages of the %d records complete before offset %d: %s; %s", j, k, diff, where), rep())
 	}
